@@ -32,6 +32,12 @@ class MyStr(str):
     """an instance of a str SUBCLASS: 'any iterable excluding str and Mapping' must exclude it as well"""
 
 
+class IE(enum.IntEnum):
+    """IntEnum members are ==-equal to ints (and to True): look-alikes of the plain Literal members next to them"""
+    A = 1
+    B = 2
+
+
 class E(enum.Enum):
     """members of Literal[...] types: 'Enum instances will be loaded via its loaders' (by exact value)"""
     A = "ea"
@@ -39,7 +45,7 @@ class E(enum.Enum):
 
 
 _NS = {"Decimal": Decimal, "Fraction": Fraction, "dtm": dtm, "uuid": uuid, "pathlib": pathlib,
-       "ipaddress": ipaddress, "re": re, "math": math, "E": E, "MyStr": MyStr}
+       "ipaddress": ipaddress, "re": re, "math": math, "E": E, "MyStr": MyStr, "IE": IE}
 
 TOKENS: dict[str, list[str]] = {
     "none": ["None"],
@@ -67,6 +73,7 @@ TOKENS: dict[str, list[str]] = {
     "ip": ["ipaddress.IPv4Address('127.0.0.1')", "ipaddress.IPv4Address('10.0.0.1')"], "pat": ["re.compile('a+')"],
     "s_ea": ["'ea'"], "i5": ["5"], "e_a": ["E.A"], "e_b": ["E.B"],
     "s_sub": ["MyStr('abc')", "MyStr('x y')"],
+    "ie_a": ["IE.A"], "ie_b": ["IE.B"],
     # the rest of the documented "exact lists": path-like classes, IP addresses / networks / interfaces
     "ppp": ["pathlib.PurePosixPath('a/b')"], "pwp": ["pathlib.PureWindowsPath('a/b')"],
     "s_ip6": ["'::1'", "'fe80::1'"], "s_net4": ["'10.0.0.0/30'", "'192.168.0.4/31'"], "s_net6": ["'fe80::/126'"],
